@@ -26,6 +26,10 @@ def cases(seed, tier, broken=()):
         nn, kk = [(8, 7), (10, 6), (9, 8), (12, 9)][i % 4]
         out.append({"mseed": int(rng.integers(0, 2**31)), "struct": "DA", "k": kk, "n": nn, "standardize": False, "use_coslat": False, "weights": False,
                     "names": False, "nb": 6, "bseed": [0, 1, 7][i % 3]})
+    # "whatever its dimension names": a user dimension called like the member dimension of the results (`n`)
+    for i in range(2):
+        out.append({"mseed": int(rng.integers(0, 2**31)), "struct": "dim-n", "k": 2, "standardize": False, "use_coslat": False, "weights": False,
+                    "names": False, "nb": 3, "bseed": 1, "as_sample": bool(i)})
     return out
 
 
@@ -57,6 +61,19 @@ def run(case):
         data = X.copy()
         data.values[3] = np.nan
         data.values[:, 1, 2] = np.nan
+    if st == "dim-n":
+        Xn = X.rename(time="n") if case.get("as_sample") else X.rename(lat="n")
+        m0 = xe.single.EOF(n_modes=2, solver="full").fit(Xn, "n" if case.get("as_sample") else "time")
+        try:
+            b0 = xe.validation.EOFBootstrapper(n_bootstraps=3, seed=1)
+            b0.fit(m0)
+            c_, s_ = b0.components(), b0.scores()
+            want = (set(Xn.dims) - ({"n"} if case.get("as_sample") else {"time"})) | {"mode"}
+            if not want <= set(c_.dims) or c_.sizes.get("mode") != 2:
+                F.append(Finding("oracle", "member_structure", "dim-n|components", f"components dims {c_.dims} for data with dims {Xn.dims}"))
+        except Exception as e:  # noqa: BLE001
+            F.append(Finding("oracle", "member_structure", "dim-n|user-dimension-named-n", f"data with a {'sample' if case.get('as_sample') else 'feature'} dimension named 'n': {type(e).__name__}: {str(e)[:140]}"))
+        return {"findings": F, "info": {"oracle_checks": {"n": 1}, "dist": {"struct": st, "names": False, "nb": 3, "seed0": False}}}
     kw = {"sample_name": "S", "feature_name": "F"} if case["names"] else {}
     sname = kw.get("sample_name", "sample")
     fname = kw.get("feature_name", "feature")
